@@ -118,7 +118,49 @@ def explore(task):
     return res
 
 
+# ------------------------------------------------------------------ files that consist of ONE top-level statement
+SINGLE_V2 = {"import": "import core", "import-path": "import \"lib/x\"", "flow": "flow a\n  match A()", "flow-with-params": "flow a $p\n  send B(p=$p)",
+             "two-imports": "import core\nimport llm", "import-and-flow": "import core\nflow a\n  match A()", "comment-only": "# nothing here", "decorated-flow": "@active\nflow a\n  match A()"}
+SINGLE_V1 = {"flow": "define flow a\n  user x\n  bot y", "user": "define user x\n  \"hi\"", "bot": "define bot y\n  \"ok\"", "subflow": "define subflow s\n  bot y",
+             "comment-only": "# nothing here"}
+LAYOUTS = {"as-is": lambda t: t, "final-newline": lambda t: t + "\n", "blank-line-before": lambda t: "\n" + t + "\n", "two-blank-lines-before": lambda t: "\n\n" + t + "\n",
+           "blank-lines-after": lambda t: t + "\n\n\n", "trailing-blanks": lambda t: "\n".join(l + "  " for l in t.split("\n")) + "\n",
+           "blank-line-with-blanks-before": lambda t: "   \n" + t + "\n"}
+
+
+def explore_single(ver):
+    """every single-statement file x every meaningless layout: one outcome (parsed flows + imports, or rejection) for all layouts"""
+    res = {"S_files": 0, "S_parses": 0, "viol": []}
+    for name, text in (SINGLE_V2 if ver == "2.x" else SINGLE_V1).items():
+        res["S_files"] += 1
+        outcomes = {}
+        for ln, fn in LAYOUTS.items():
+            res["S_parses"] += 1
+            try:
+                r = L.parse("single.co", fn(text), ver)
+                outcomes[ln] = ("ok", L.flows_key(r), tuple(r.get("import_paths") or ()))
+            except Exception as e:
+                outcomes[ln] = ("rejected", type(e).__name__)
+        kinds = {o[0] for o in outcomes.values()}
+        if len(set(outcomes.values())) > 1:
+            ok = [k for k, o in outcomes.items() if o[0] == "ok"]
+            rej = [k for k, o in outcomes.items() if o[0] != "ok"]
+            what = "parses in the layouts %s but is rejected in %s (%s)" % (ok, rej, sorted({o[1] for o in outcomes.values() if o[0] != "ok"})) if len(kinds) > 1 else "parses to different flows / imports in different layouts"
+            res["viol"].append((f"S:{ver}:single-statement-file:{name}:{'accepted-or-rejected-by-layout' if len(kinds) > 1 else 'flows-differ'}",
+                                f"[{ver}] file {text!r}: {what}", {"part": "S", "ver": ver, "file": name}))
+    return res
+
+
 def replay(rp):
+    if rp.get("part") == "S":
+        text = (SINGLE_V2 if rp["ver"] == "2.x" else SINGLE_V1)[rp["file"]]
+        for ln, fn in LAYOUTS.items():
+            try:
+                r = L.parse("single.co", fn(text), rp["ver"])
+                print(ln, repr(fn(text)), "-> ok", len(r.get("flows", [])), "flow(s), imports", r.get("import_paths"))
+            except Exception as e:
+                print(ln, repr(fn(text)), "->", type(e).__name__, str(e)[:120])
+        return 0
     ver = rp["ver"]
     ctxs, brks, probes = (CONTEXTS_V2, BREAKS_V2, PROBES_V2) if ver == "2.x" else (CONTEXTS_V1, BREAKS_V1, PROBES_V1)
     files = {f"{cn}+{bn}": ct + bt for (cn, ct), (bn, bt) in itertools.product(ctxs.items(), brks.items())}
